@@ -191,6 +191,17 @@ def rule_early(ck):
         nonempty = any((c_ := cmp_norm(a, t)) and c_[1] == "<" and canon(c_[0]) == "0" and canon(c_[2]) == "len(self.waiting_queue)" for a, t in facts_at(fl, n)) or ("self.waiting_queue", True) in fs \
             or emptiness(fl, n, "self.waiting_queue") == "nonempty"
         ck.require(nonempty, "C19.R6", f, c, ok="only while someone is waiting", bad="satisfied EVs are unplugged early although nobody is waiting", sink="early:nonempty")
+        # every early unplug admits (and removes) the head of the queue: the "someone is waiting" test must be made again for each one, i.e.
+        # inside the loop the unplug sits in - a test made once before the loop is stale from the second satisfied EV on
+        loops = [t for t, lab in cfg.edges_dominating(n) if lab is True and (t.kind in ("for",) or (t.kind == "test" and isinstance(t.stmt, ast.While)))
+                 and n in cfg.loop_region(t)]
+        if nonempty and loops:
+            inner = min(loops, key=lambda t: len(cfg.loop_region(t)))
+            body = cfg.loop_region(inner)
+            guards = [t for t, lab in cfg.edges_dominating(n) if t.kind == "test" and not isinstance(t.stmt, ast.While) and "waiting_queue" in canon(fl.expand(t.expr, t))]
+            fresh = any(t in body for t in guards)
+            ck.require(fresh, "C19.R6", f, c, ok="the queue is looked at again for every satisfied EV", bad="`someone is waiting` is tested once before the loop over the satisfied EVs, "
+                       "but every early unplug admits the head of the queue: from the second EV on the test is stale and an EV is evicted with nobody waiting", sink="early:nonempty-per-ev")
         b = bind_args(c, unplug, method=True)
         loops = [t for t, lab in cfg.edges_dominating(n) if t.kind == "for" and lab is True]
         var = loops[-1].stmt.target.id if loops and isinstance(loops[-1].stmt.target, ast.Name) else None
